@@ -58,7 +58,6 @@ import (
 	protosession "github.com/nspcc-dev/neofs-sdk-go/proto/session"
 	"github.com/nspcc-dev/neofs-sdk-go/user"
 	"google.golang.org/grpc/credentials"
-	"google.golang.org/grpc/credentials/insecure"
 	"google.golang.org/grpc/peer"
 	"google.golang.org/protobuf/proto"
 	"pgregory.net/rapid"
@@ -162,7 +161,8 @@ func refVerify(body neofscrypto.ProtoMessage, m *protosession.RequestMetaHeader,
 	if !legacyVersion(m) {
 		return refSigValid(v.MetaSignature, stable(m), n3) && refSigValid(v.BodySignature, stable(body), n3)
 	}
-	for mo, vo := m, v; ; mo, vo = mo.GetOrigin(), vo.GetOrigin() {
+	// (a missing outermost meta header counts as an empty one)
+	for mo, vo := m.GetOrigin(), v.GetOrigin(); ; mo, vo = mo.GetOrigin(), vo.GetOrigin() {
 		if (mo == nil) != (vo == nil) {
 			return false
 		}
@@ -302,6 +302,11 @@ func tlsWith(pub any) credentials.TLSInfo {
 	return credentials.TLSInfo{State: st}
 }
 
+// plainAuth is what a non-TLS listener reports (any AuthInfo that is not peerauth.AuthInfo).
+type plainAuth struct{}
+
+func (plainAuth) AuthType() string { return "insecure" }
+
 var peerCtxs = func() []peerCtx {
 	withPeer := func(ai credentials.AuthInfo) context.Context {
 		return peer.NewContext(context.Background(), &peer.Peer{AuthInfo: ai})
@@ -310,7 +315,7 @@ var peerCtxs = func() []peerCtx {
 	res := []peerCtx{
 		{name: "no-peer", ctx: context.Background()},
 		{name: "peer-no-auth", ctx: withPeer(nil)},
-		{name: "peer-insecure", ctx: withPeer(insecure.NewCredentials().Info())},
+		{name: "peer-insecure", ctx: withPeer(plainAuth{})},
 		{name: "tls-no-client-cert", ctx: withPeer(serverAuthInfo(tlsWith(nil)))},
 		{name: "tls-p384-cert", ctx: withPeer(serverAuthInfo(tlsWith(&ecdsa.PublicKey{Curve: elliptic.P384(), X: x384, Y: y384})))},
 		{name: "tls-rsa-cert", ctx: withPeer(serverAuthInfo(tlsWith(&rsa.PublicKey{N: big.NewInt(3233), E: 17})))},
@@ -716,7 +721,9 @@ func isSigVerification(err error) bool {
 	return errors.As(err, &st)
 }
 
-func callNoPanic(t *rapid.T, what string, f func() error) (err error) {
+type fataler interface{ Fatalf(string, ...any) }
+
+func callNoPanic(t fataler, what string, f func() error) (err error) {
 	defer func() {
 		if p := recover(); p != nil {
 			t.Fatalf("PANIC in %s: %v", what, p)
